@@ -6,7 +6,7 @@
 From Coq Require Import ZArith NArith List Bool Lia.
 Require Import Webob.Lib.Val Webob.Lib.PyStr Webob.Model.C20_wire Webob.Model.C20_callapp
                Webob.Spec.C20_spec Webob.Proofs.C20_lib Webob.Proofs.C20_request
-               Webob.Proofs.C20_response Webob.Proofs.C20_callapp.
+               Webob.Proofs.C20_response Webob.Proofs.C20_callapp Webob.Proofs.C20_keys.
 From Coq Require String.
 Import String.StringSyntax.
 Import ListNotations.
@@ -89,6 +89,12 @@ Theorem C20_skip_body_threshold : forall e e1 body k,
   as_bytes (SkipOver k) e = as_bytes SkipNo e.
 Proof. exact skip_body_threshold. Qed.
 Print Assumptions C20_skip_body_threshold.
+
+(* the header-entry hypothesis holds for every key a WSGI server builds (HTTP_ + [A-Z0-9_]+,
+   CONTENT_TYPE, CONTENT_LENGTH) with any tight ASCII value *)
+Theorem C20_cgi_keys_are_wf : forall k v, cgi_header_key k -> good_hvalue v -> wf_entry (k, v).
+Proof. exact cgi_key_wf_entry. Qed.
+Print Assumptions C20_cgi_keys_are_wf.
 
 (* the two codecs the round trip rests on *)
 Theorem C20_unquote_quote : forall bs, Forall (fun c => c < 256) bs -> url_unquote (url_quote bs) = bs.
